@@ -82,7 +82,8 @@ def gen_item(rng, items, name=None):
                   doc=rng.choice([None, None, "doc one", "doc two"]),
                   attrs={"tag": rng.choice(["1", "2", "'u'"])} if rng.random() < 0.2 else {},
                   deco=rng.choice(decos) if decos and rng.random() < 0.5 else None,
-                  writes=rng.choice(datas) if datas and rng.random() < 0.08 else None)
+                  writes=rng.choice(datas) if datas and rng.random() < 0.08 else None,
+                  kw=rng.choice(INTS) if rng.random() < 0.12 else None)
         it["calls"] = [c for c in it["calls"] if c != it["name"]]
         return it
     if r < 0.46:
@@ -223,9 +224,14 @@ def render_item(it):
         params = ["a"] if it["np"] == 1 else ["a", "b"]
         if it["dflt"] is not None:
             params[-1] = "%s=%d" % (params[-1], it["dflt"])
+        if it.get("kw") is not None:
+            params.append("*")
+            params.append("kw=%d" % it["kw"])
         expr = "a*2 + %d" % it["c"]
         if it["np"] == 2:
             expr += " + b*3"
+        if it.get("kw") is not None:
+            expr += " + kw"
         for r in it["reads"]:
             expr += " + %s" % r
         for c in it["calls"]:
@@ -377,8 +383,10 @@ def mutate(rng, items):
                 w = rng.random()
                 if w < 0.4:
                     it["c"] = rng.choice(INTS)
-                elif w < 0.55:
+                elif w < 0.50:
                     it["dflt"] = rng.choice([None, 4, 6, 8])
+                elif w < 0.55:
+                    it["kw"] = rng.choice([None] + INTS)
                 elif w < 0.65:
                     it["np"] = 3 - it["np"]
                 elif w < 0.75:
